@@ -38,7 +38,7 @@ _P1 = {}
 def phase1(lib, key):
     if key in _P1:
         return _P1[key]
-    ip = absint.Interp(lib, lambda t: c19.summary_of(lib, t), keep_regs=True)
+    ip = absint.Interp(lib, lambda t, c=None: c19.summary_of(lib, t, c), keep_regs=True)
     r = ip.run(lib.func(key))
     _P1[key] = r
     return r
